@@ -14,7 +14,7 @@ reaches, so that a non-terminating C loop is a log mismatch instead of a hang.
  B  loop bodies: for each of ~40 loop kinds (range shapes, list/tuple typed+untyped, reversed, enumerate
     with/without start, str/bytes/bytearray typed+untyped incl. Py_UCS4 targets, dict plain/.keys()/
     .values()/.items() typed+untyped, set/frozenset, C arrays and C array slices) every sequence without
-    repetition of <= 2 (quick: 8 main kinds, <= 1 others) / <= 3 (thorough: main kinds, <= 2 others) actions from the kind's alphabet
+    repetition of <= 2 (quick: 5 main kinds, <= 1 others) / <= 3 (thorough: main kinds, <= 2 others) actions from the kind's alphabet
     {continue-if, break-if, reassign loop variable, raise, rebind the iterable name, container
     mutations (append/pop/insert/setitem/clear, add key/replace value/delete key/swap key, add/discard)}
     run on containers of several sizes; else clause logs; the function returns the final loop
@@ -32,11 +32,12 @@ TECHNIQUE = 'exhaustive product of range triples x static shapes x target types,
 LEVEL_TEXT = ('All range(start, stop, step) triples over {-3..3,10}^3 (incl. step 0) in literal / literal-step / run-time '
               'shapes, plain and reversed, for 7 loop-target typings, plus ranges within 3 of the target type bounds; and '
               'for ~40 loop kinds (range, list, tuple, reversed, enumerate, str, bytes, bytearray, dict views, set, C array) '
-              'every repetition-free sequence of <= 2 (quick: 8 main kinds, others <= 1) / <= 3 (thorough: 4 main kinds, others <= 2) body actions (continue, break, reassign, '
+              'every repetition-free sequence of <= 2 (quick: 5 main kinds, others <= 1) / <= 3 (thorough: 4 main kinds, others <= 2) body actions (continue, break, reassign, '
               'raise, rebind, container mutations) on containers of several sizes.  The ordered log of visited values, '
               'else-clause execution, final loop variable, mutated container and exception type must equal CPython on '
               'the same source.')
-LEVEL_NOTE = ('C-typed loop targets are pre-initialised (an unbound C variable is not an error in C); unsigned targets only '
+LEVEL_NOTE = ('Quick tier: literal range shapes over the 6-value grid {-3,-1,0,2,3,10}^2 x all steps, near-bound steps +-1/+-2; '
+              'thorough: the full {-3..3,10}^3 and +-3.  C-typed loop targets are pre-initialised (an unbound C variable is not an error in C); unsigned targets only '
               'receive non-negative bounds; typed targets only receive values representable in the type.  Iteration cap 20 '
               'per loop in both runs.  C arrays use a .pyx source with a list-based reference.  Trusted: CPython 3.12, gcc.')
 
@@ -116,9 +117,10 @@ def family_range(tier):
                 if quick and (tname == 'char' or (rev and step in (3, -3, 10))):
                     continue           # quick: literal shapes for untyped/int/unsigned targets only
                 body = decl
-                for a, c in itertools.product(vals, vals):
+                lvals = [v for v in vals if v in (-3, -1, 0, 2, 3, 10)] if quick else vals     # quick: 6-value literal grid
+                for a, c in itertools.product(lvals, lvals):
                     if step == 'one':
-                        if a != vals[0]:
+                        if a != lvals[0]:
                             continue
                         args = (c,)
                     elif step is None:
@@ -166,7 +168,7 @@ def family_range(tier):
         near_lo = [repr(lo + k) for k in (0, 1, 2, 3)]
         for rev in (False, True):
             rv = 'rev' if rev else 'fwd'
-            for step in (1, 2, 3, -1, -2, -3):
+            for step in ((1, 2, -1, -2) if quick else (1, 2, 3, -1, -2, -3)):
                 for zone, vs in (('max', near_hi), ('min', near_lo)):
                     b.add('a, b', decl + _loop(4, init, 'for i in %s:' % _range_expr(('a', 'b', step), rev), None) + '    return out',
                           'range-bound/%s/%s/objb/%s/step=%d' % (rv, tname, zone, step), Prod(vs, vs), 'nb_%s_%s' % (tname, zone))
@@ -174,6 +176,8 @@ def family_range(tier):
                           decl + _loop(4, init, 'for i in %s:' % _range_expr(('a', 'b', step), rev), None) + '    return out',
                           'range-bound/%s/%s/cb/%s/step=%d' % (rv, tname, zone, step), Prod(vs, vs), 'nb_%s_%s' % (tname, zone))
                     # literal bounds
+                    if quick and rev:
+                        continue
                     body = decl
                     for a, c in itertools.product(vs, vs):
                         body += _loop(4, init, 'for i in %s:' % _range_expr((a, c, step), rev), '(%s, %s, %d)' % (a, c, step))
@@ -323,8 +327,7 @@ def family_bodies(tier):
     b = Builder()
     for name, k in kinds(tier).items():
         letters = sorted(k['letters'])
-        qmain = name in ('range-var/int/cb', 'list/typed', 'revlist/typed', 'bytearray/typed', 'dict/items/typed', 'dict/plain/typed',
-                         'set/typed', 'str/typed')
+        qmain = name in ('range-var/int/cb', 'list/typed', 'dict/items/typed', 'dict/plain/typed', 'set/typed')
         tmain = name in ('range-var/int/cb', 'list/typed', 'dict/items/typed', 'set/typed')
         depth = (2 if qmain else 1) if quick else (3 if tmain else 2)
         for d in range(depth + 1):
